@@ -13,15 +13,15 @@ uint64_t g_sum_bits;
 unsigned nondet_unsigned();
 void* nondet_ptr();
 // ts[0] = parent's timestamp, ts[i] = its i-th ancestor's; n blocks down to the root; out = {iterations, sum calls, checksum lo, checksum hi}
-int32_t w_vbk_weighted_time(const uint32_t* ts, const uint32_t* bits, uint32_t n, uint32_t period, uint32_t blocktime, uint32_t* out) {
+int32_t w_vbk_weighted_time(const uint32_t* ts, const uint32_t* bits, uint32_t n, uint32_t period, uint32_t blocktime, uint32_t* out, int32_t h0, int noRetarget) {
   VbkIndex c[NCH];
-  for (uint32_t i = 0; i < NCH; i++) { c[i].ts = ts[i]; c[i].bits = bits[i]; c[i].pprev = (i + 1 < n) ? &c[i + 1] : 0; }
-  VbkChainParams p; p.period = PERIOD; p.blocktime = blocktime;   // (concrete period: the contract requires period == PERIOD)
+  for (uint32_t i = 0; i < NCH; i++) { c[i].ts = ts[i]; c[i].bits = bits[i]; c[i].pprev = (i + 1 < n) ? &c[i + 1] : 0; c[i].height = h0 - (int32_t)i; }
+  VbkChainParams p; p.period = PERIOD; p.blocktime = blocktime; p.noRetarget = noRetarget != 0;   // (concrete period: the contract requires period == PERIOD)
   g_sum_calls = 0; g_sum_bits = 0;
   uint32_t it = 0;
   int32_t t = vbk_weighted_time(c[0], p, &it);
   out[0] = it; out[1] = g_sum_calls; out[2] = (uint32_t)g_sum_bits; out[3] = (uint32_t)(g_sum_bits >> 32);
   return t;
 }
-void h_vbk_weighted_time() { w_vbk_weighted_time((const uint32_t*)nondet_ptr(), (const uint32_t*)nondet_ptr(), nondet_unsigned(), nondet_unsigned(), nondet_unsigned(), (uint32_t*)nondet_ptr()); REACH; }
+void h_vbk_weighted_time() { w_vbk_weighted_time((const uint32_t*)nondet_ptr(), (const uint32_t*)nondet_ptr(), nondet_unsigned(), nondet_unsigned(), nondet_unsigned(), (uint32_t*)nondet_ptr(), (int32_t)nondet_unsigned(), (int)nondet_unsigned()); REACH; }
 }
